@@ -52,7 +52,10 @@ void vterm_automate_newdata(struct vterm_automate *vterm, int16_t input_c)
             break;
 
         case 2:
-            if (input_c < 0)
+            // only VTERM_INIT_STEP (-1) means "no character": a byte >= 0x80
+            // held in a (signed) char arrives here sign-extended, i.e.
+            // negative, and used to be dropped (all of UTF-8)
+            if (input_c == VTERM_INIT_STEP)
             {
                 return_flag = 1;
                 break;
@@ -60,7 +63,7 @@ void vterm_automate_newdata(struct vterm_automate *vterm, int16_t input_c)
             else
             {
                 c = (char)input_c;
-                input_c = -1;
+                input_c = VTERM_INIT_STEP;
                 vterm->state = 3;
             }
             break;
